@@ -9,7 +9,7 @@ read the real, type-checked RTLIR of the elaborated component.
 
 stream = 'clean'   : the main stream; avoids the shapes of the KNOWN findings (F10, F17, F7) only
 labelled streams (`gen_finding`), one known defect shape each:
-   F10 (yosys)   struct signal kept in several unsynchronised forms: variants field-write (struct output port written by
+   F10 (yosys)   struct signal kept in several unsynchronised forms: variants const-array-field (struct constant with a list-of-struct field connected to a struct output), field-write (struct output port written by
                  field), nested-leaf (struct port with a nested-struct / list field in output direction), struct-wire (struct
                  wire written by field and read whole or vice versa), comp-array (list of sub-components with a struct input)
    F17 (verilog) for loop with a negative step that does not land on the bound (unsigned loop variable wraps)
@@ -48,7 +48,7 @@ def numel(n):
 
 class Struct:
   def __init__(self, name, fields):
-    self.name, self.fields = name, fields            # fields: [(fname, ftype)], ftype: ('b', w) | ('l', n, w) | ('s', Struct)
+    self.name, self.fields = name, fields            # fields: [(fname, ftype)], ftype: ('b', w) | ('l', n, w) | ('s', Struct) | ('ls', n, Struct)
   @property
   def width(self): return sum(ftype_width(t) for _, t in self.fields)
   @property
@@ -61,12 +61,31 @@ class Struct:
         ty = f'Bits{t[2]}'
         for d in reversed(dims_of(t[1])): ty = f'[{ty}]*{d}'
         out.append(f'  {f}: {ty}')
+      elif t[0] == 'ls':
+        ty = t[2].name
+        for d in reversed(dims_of(t[1])): ty = f'[{ty}]*{d}'
+        out.append(f'  {f}: {ty}')
       else: out.append(f'  {f}: {t[1].name}')
     return out
+  def const_text(self, rng):
+    """a constant of this type: nested constructor calls with integer arguments"""
+    def val(t):
+      if t[0] == 'b': return str(rng.getrandbits(t[1]))
+      if t[0] == 's': return t[1].const_text(rng)
+      def lst(dims):
+        # (list elements are written as BitsN(v): the bitstruct constructor keeps the elements of a list argument as they are)
+        if not dims: return f'Bits{t[2]}({rng.getrandbits(t[2])})' if t[0] == 'l' else t[2].const_text(rng)
+        return '[ ' + ', '.join(lst(dims[1:]) for _ in range(dims[0])) + ' ]'
+      return lst(dims_of(t[1]))
+    return f"{self.name}( {', '.join(val(t) for _, t in self.fields)} )"
+  @property
+  def has_struct_list(self):
+    return any(t[0] == 'ls' or (t[0] == 's' and t[1].has_struct_list) for _, t in self.fields)
 
 def ftype_width(t):
   if t[0] == 'b': return t[1]
   if t[0] == 'l': return numel(t[1]) * t[2]
+  if t[0] == 'ls': return numel(t[1]) * t[2].width
   return t[1].width
 
 class Sig:
@@ -111,6 +130,7 @@ def add_readable(scope, path, T, n=None, dyn=True):
     for f, t in T[1].fields:
       if t[0] == 'b': add_readable(scope, f'{path}.{f}', t)
       elif t[0] == 'l': add_readable(scope, f'{path}.{f}', ('b', t[2]), t[1])
+      elif t[0] == 'ls': add_readable(scope, f'{path}.{f}', ('s', t[2]), t[1])
       else: add_readable(scope, f'{path}.{f}', ('s', t[1]))
 
 class ExprGen:
@@ -284,6 +304,8 @@ class ExprGen:
     return str(self.literal(w))
 
   def cond(self, depth=1):
+    bools = [t for t, _ in self.scope.consts if t.startswith('s.FL')]
+    if bools and self.rng.random() < 0.15: return self.rng.choice(bools)          # `if s.FLG:` - a bool constant as the condition
     return self.expr(1, depth)[0]
 
 # ---------------------------------------------------------------------------------------------
@@ -318,16 +340,25 @@ class DesignGen:
     self.uid = 0
 
   # -------------------------------------------------------------- data types
-  def new_struct(self, flat_only=False):
+  def new_struct(self, flat_only=False, depth=0, force_ls=False):
     rng = self.rng
     self.uid += 1
     name = f'St{self.uid}'
     fields = []
     for k in range(rng.randint(2, 3)):
       r = rng.random()
+      if force_ls and k == 0: r = 0.8
       fname = 'abcdefg'[k] + rng.choice(['', 'x', '_f'])
       if flat_only or r < 0.6: fields.append((fname, ('b', rng.choice([1, 2, 3, 4, 8, 5]))))
-      elif r < 0.8: fields.append((fname, ('l', rng.choice([2, 4, 2, (2, 3), (3, 2), (2, 2)]), rng.choice([1, 2, 4]))))
+      elif r < 0.76: fields.append((fname, ('l', rng.choice([2, 4, 2, (2, 3), (3, 2), (2, 2)]), rng.choice([1, 2, 4]))))
+      elif r < 0.88 and depth < 2:
+        # a (possibly 2-D) list of nested structs; the element type may itself contain a list of structs (two deep)
+        inner = [s for s in self.structs if s.flat]
+        if depth == 0 and rng.random() < 0.3: s2 = self.new_struct(depth=1, force_ls=True)
+        elif inner and rng.random() < 0.6: s2 = rng.choice(inner)
+        else: s2 = self.new_struct(flat_only=True)
+        fields.append((fname, ('ls', rng.choice([2, 2, 3, (2, 2), (1, 2)]), s2)))
+        self.features.add('struct-field-list-of-struct')
       else:
         inner = [s for s in self.structs if s.flat]
         if inner and rng.random() < 0.7: fields.append((fname, ('s', rng.choice(inner))))
@@ -429,6 +460,12 @@ class DesignGen:
       d.append(f'    s.KB = Bits{w}({v})'); kb = Ref('s.KB', w, 'const', sliceable=False); self.features.add('const-bits')
     if rng.random() < 0.4:
       v = rng.choice([1, 2, 5, 9]); d.append(f'    kf = {v}'); consts.append(('kf', v)); self.features.add('closure-int')
+    if rng.random() < 0.3:
+      # Python bool constants of the component (repaired defect F38: emitted as 1'dTrue)
+      v = rng.random() < 0.5; d.append(f'    s.FLG = {v}'); consts.append(('s.FLG', int(v))); self.features.add('const-bool')
+      if rng.random() < 0.5:
+        vs = [rng.random() < 0.5 for _ in range(rng.randint(2, 3))]
+        d.append(f"    s.FLS = [ {', '.join(map(str, vs))} ]"); consts += [(f's.FLS[{k}]', int(x)) for k, x in enumerate(vs)]; self.features.add('const-bool-list')
     fb = None
     if rng.random() < 0.25:
       w = rng.choice([4, 8]); v = rng.getrandbits(w)
@@ -533,7 +570,7 @@ class DesignGen:
       if hasattr(s, 'direct'):
         nm = self.blk_name(c, 'up')
         c.lines += ['    @update', f'    def {nm}():', f'      {s.path} @= {s.direct}']
-      elif mode < 0.22 and connectable:
+      elif mode < (0.4 if s.T[0] == 's' and s.n is None else 0.22) and connectable:
         self.emit_connection(c, scope, s)
       else:
         if cur is None or len(cur) >= rng.randint(1, 3):
@@ -577,6 +614,11 @@ class DesignGen:
       # whole struct connection from a same-typed readable path
       if s.T[0] == 's' and s.n is None:
         cands = [x for x in self.struct_paths(c, scope, s.T[1])]
+        st = s.T[1]
+        if rng.random() < (0.55 if st.has_struct_list else 0.3) and (self.be == 'verilog' or st.flat):
+          # a CONSTANT of the struct type as the source of a structural connection (yosys: flat structs only, F10)
+          c.lines.append(f'    {s.path} //= {st.const_text(rng)}')
+          self.features.add('connect-struct-const' + ('-list-of-struct' if st.has_struct_list else '')); return
         if cands:
           c.lines.append(f'    {s.path} //= {rng.choice(cands)}'); self.features.add('connect-struct'); return
       self.render_comb_target(c, scope, [], s); return
@@ -781,6 +823,16 @@ class DesignGen:
         self.features.add('for-step2')
         e2 = eg2.expr(1, 1)[0]
         return [f'for {v} in range(0, {w}, 2):', f'  {tgt}[{v}] {op} {e}', f'for {v} in range(1, {w}, 2):', f'  {tgt}[{v}] {op} {e2}']
+      if rng.random() < 0.25:
+        # an if-expression as the loop bound, constant or signal condition (repaired defect F39: `i < c ? a : b`); the
+        # larger bound has as many bits as an index of the target, the whole target is assigned first
+        hi = w if w & (w - 1) else w - 1
+        lo = rng.randint(1, hi)
+        bools = [t for t, _ in eg.scope.consts if t.startswith('s.FL')]
+        cnd = rng.choice(bools) if bools and rng.random() < 0.5 else eg.expr(1, 1)[0]
+        a_, b_ = (hi, lo) if rng.random() < 0.5 else (lo, hi)
+        self.features.add('for-ifexp-bound' + ('-const' if cnd.startswith('s.FL') else '-signal'))
+        return [f'{tgt} {op} {E(w, 1)}', f'for {v} in range({a_} if {cnd} else {b_}):', f'  {tgt}[{v}] {op} {e}']
       return [f'for {v} in range({w}):', f'  {tgt}[{v}] {op} {e}']
     return [f'{tgt} {op} {E()}']
 
@@ -826,6 +878,8 @@ class DesignGen:
       if t[0] == 'b': out.append(f'{tgt}.{f} {op} {eg.expr(t[1], 2)[0]}')
       elif t[0] == 'l':
         for ix in all_indices(dims_of(t[1])): out.append(f'{tgt}.{f}{idx_text(ix)} {op} {eg.expr(t[2], 1)[0]}')
+      elif t[0] == 'ls':
+        for ix in all_indices(dims_of(t[1])): out += self.assign_fields(f'{tgt}.{f}{idx_text(ix)}', t[2], op, eg)
       else: out += self.assign_fields(f'{tgt}.{f}', t[1], op, eg)
     return out
 
@@ -887,13 +941,15 @@ F31 = 'F31-chained-assignment-rhs-reads-last-target'
 F32 = 'F32-same-width-ext-trunc-of-compound'
 F33 = 'F33-folded-constant-recomputed-narrow'
 F34 = 'F34-loop-variable-named-like-global'
+F38 = 'F38-bool-constant-attribute'
+F39 = 'F39-if-expression-loop-bound'
 F35 = 'F35-chained-assignment-sole-body-without-begin-end'
 
 FINDING_STREAMS = {
   # id -> (backends, expected violation kinds)
   F10: (('yosys',), ('multi-driver', 'undriven', 'output-mismatch', 'syntax-invalid')),
   F17: (('verilog',), ('loop-overrun', 'output-mismatch')),
-  F12: (('verilog',), ('output-mismatch',)),
+  F12: (('verilog', 'yosys'), ('output-mismatch', 'cast-reading-dependent')),
   F35: (('verilog', 'yosys'), ('output-mismatch', 'multi-driver', 'undriven')),
   F25: (('yosys',), ('syntax-invalid', 'undriven', 'output-mismatch', 'multi-driver')),
 }
@@ -904,6 +960,7 @@ FIXED_STREAMS = {
   F23: ('yosys', 'verilog'),
   F29: ('verilog', 'yosys'),
   F31: ('verilog', 'yosys'), F32: ('verilog', 'yosys'), F33: ('verilog', 'yosys'), F34: ('verilog', 'yosys'),
+  F38: ('verilog', 'yosys'), F39: ('verilog', 'yosys'),
 }
 
 def _hdr(): return ['from pymtl3 import *', '']
@@ -914,7 +971,7 @@ def gen_finding(rng, be, fid):
   variant = None
   L = _hdr()
   if fid == F10:
-    variant = rng.choice(['field-write', 'nested-leaf', 'struct-wire', 'comp-array', 'struct-tmpvar'])
+    variant = rng.choice(['field-write', 'nested-leaf', 'struct-wire', 'comp-array', 'struct-tmpvar', 'const-array-field'])
     L += ['@bitstruct', 'class Fl:', f'  a: Bits{w}', f'  b: Bits{w2}', '']
     if variant == 'field-write':
       L += ['class Top( Component ):', '  def construct( s ):', f'    s.x = InPort( Bits{w} )', f'    s.y = InPort( Bits{w2} )',
@@ -935,6 +992,30 @@ def gen_finding(rng, be, fid):
       else:
         L += [f'    s.o = OutPort( Bits{w} )', '    @update', '    def up1():', '      s.w @= Fl( s.x, s.y )', '    @update', '    def up2():',
               '      s.o @= ~s.w.a', '      s.q @= s.w']
+    elif variant == 'const-array-field':
+      # a struct CONSTANT with a (1-D / 2-D / two-deep) list-of-struct field connected to a struct output, followed by further
+      # connections and a child component.  On the current tree only the forms of the struct output are affected
+      # (multi-driver / undriven); anything else - invalid text, a wrong value on another port - is NOT part of F10.
+      n = rng.choice([1, 2, 3]); m = rng.choice([1, 2])
+      fl = lambda: f'Fl( {rng.getrandbits(w)}, {rng.getrandbits(w2)} )'
+      shape = rng.choice(['1d', '2d', 'deep'])
+      if shape == '1d':
+        L += ['@bitstruct', 'class Cfg:', f'  a: Bits{w}', f'  b: [ Fl ] * {n}', '']
+        cst = f"Cfg( {rng.getrandbits(w)}, [ {', '.join(fl() for _ in range(n))} ] )"
+      elif shape == '2d':
+        L += ['@bitstruct', 'class Cfg:', f'  b: [ [ Fl ] * {n} ] * {m}', f'  a: Bits{w}', '']
+        cst = 'Cfg( [ ' + ', '.join('[ ' + ', '.join(fl() for _ in range(n)) + ' ]' for _ in range(m)) + f' ], {rng.getrandbits(w)} )'
+      else:
+        L += ['@bitstruct', 'class Deep:', f'  p: [ Fl ] * {n}', f'  z: Bits{w2}', '', '@bitstruct', 'class Cfg:', f'  a: Bits{w}', f'  d: [ Deep ] * {m}', '']
+        dp = lambda: f"Deep( [ {', '.join(fl() for _ in range(n))} ], {rng.getrandbits(w2)} )"
+        cst = f"Cfg( {rng.getrandbits(w)}, [ {', '.join(dp() for _ in range(m))} ] )"
+      L += ['class Inc( Component ):', '  def construct( s ):', '    s.in_ = InPort( Bits8 )', '    s.out = OutPort( Bits8 )', '    s.k = OutPort( Fl )',
+            '    s.out //= s.in_', f'    s.k //= {fl()}', '',
+            'class Top( Component ):', '  def construct( s ):', '    s.in_ = InPort( Bits8 )', '    s.cfg = OutPort( Cfg )', '    s.o1 = OutPort( Bits8 )',
+            '    s.o2 = OutPort( Bits8 )', '    s.k = OutPort( Fl )', '    s.sub = Inc()']
+      conns = [f'    s.cfg //= {cst}', '    s.sub.in_ //= s.in_', '    s.o1 //= s.sub.out', '    s.o2 //= s.in_', '    s.k //= s.sub.k']
+      if rng.random() < 0.5: conns[0], conns[1] = conns[1], conns[0]
+      L += conns
     elif variant == 'struct-tmpvar':
       L += ['class Top( Component ):', '  def construct( s ):', '    s.in_ = InPort( Fl )', f'    s.out = OutPort( Bits{w} )', f'    s.out2 = OutPort( Bits{w2} )',
             '    @update', '    def up():', '      t = s.in_', '      s.out @= t.a', f"      s.out2 @= t.b {rng.choice('+^')} {rng.randint(1, (1 << w2) - 1)}"]
@@ -1047,8 +1128,14 @@ def gen_finding(rng, be, fid):
   elif fid == F12:
     n = rng.choice([4, 8])
     W = (n - 1).bit_length() + rng.choice([1, 2])
-    L += ['class Top( Component ):', '  def construct( s ):', f'    s.a = InPort( Bits{W} )', f'    s.o = OutPort( Bits{W} )',
-          '    @update', '    def up():', '      s.o @= 0', f'      for i in range({n}):', '        t = i + 1', '        if s.a == t:', f'          s.o @= {rng.randint(1, (1 << W) - 1)}']
+    variant = rng.choice(['tmpvar', 'cast-of-sum'])
+    if variant == 'tmpvar':
+      L += ['class Top( Component ):', '  def construct( s ):', f'    s.a = InPort( Bits{W} )', f'    s.o = OutPort( Bits{W} )',
+            '    @update', '    def up():', '      s.o @= 0', f'      for i in range({n}):', '        t = i + 1', '        if s.a == t:', f'          s.o @= {rng.randint(1, (1 << W) - 1)}']
+    else:
+      # BitsW( i + 1 ): the sum is typed with the width of the loop variable and wraps at i = n-1 before the cast widens it
+      L += ['class Top( Component ):', '  def construct( s ):', f'    s.a = InPort( Bits{W} )', f'    s.o = OutPort( Bits{W} )',
+            '    @update', '    def up():', '      s.o @= 0', f'      for i in range({n}):', f'        if s.a == Bits{W}( i + 1 ):', f'          s.o @= {rng.randint(1, (1 << W) - 1)}']
     fixed_cycles = [{'.a': 0, '.reset': 0}, {'.a': n, '.reset': 0}, {'.a': rng.getrandbits(W), '.reset': 0}]      # t wraps to 0 at i = n-1
   elif fid == F25:
     variant = rng.choice(['top', 'subcomponent'])
@@ -1068,6 +1155,21 @@ def gen_finding(rng, be, fid):
     lo = rng.randint(0, W - 2); hi = rng.randint(lo + 1, W)
     L += ['class Top( Component ):', '  def construct( s ):', f'    s.a = InPort( Bits{W} )', f'    s.b = InPort( Bits{W} )', f'    s.r = OutPort( Bits{W} )',
           '    @update_ff', '    def ff():', f"      t = s.a {rng.choice('|^+')} s.b", f'      t[{lo}:{hi}] = s.b[0:{hi - lo}]', '      s.r <<= t']
+  elif fid == F38:
+    fl = [rng.random() < 0.5 for _ in range(3)]
+    W = rng.choice([4, 8])
+    L += ['class Top( Component ):', '  def construct( s ):', f'    s.a = InPort( Bits{W} )', f'    s.o = OutPort( Bits{W} )', '    s.p = OutPort( Bits1 )', '    s.q = OutPort( Bits1 )',
+          f'    s.FLAG = {rng.random() < 0.5}', f"    s.FL = [ {', '.join(map(str, fl))} ]", '    @update', '    def up():',
+          '      if s.FLAG:', f"        s.o @= s.a {rng.choice('+-^')} {rng.randint(1, 7)}", '      else:', '        s.o @= s.a',
+          f"      s.p @= s.a[0] {rng.choice('&|^')} s.FLAG", f"      s.q @= ( s.a[1] & s.FL[0] ) | s.FL[{rng.randint(1, 2)}]"]
+  elif fid == F39:
+    a_, b_ = rng.sample([1, 2, 3, 4, 5, 6, 7], 2)
+    c_, d_ = rng.sample([1, 2, 3, 4, 5], 2)
+    L += ['class Top( Component ):', '  def construct( s ):', '    s.a = InPort( Bits8 )', '    s.mode = InPort( Bits1 )', '    s.o = OutPort( Bits8 )', '    s.q = OutPort( Bits8 )',
+          '    s.r = OutPort( Bits8 )', f'    s.MODE = {rng.choice([0, 1, True, False])}', '    @update', '    def up():',
+          '      s.o @= 0', f'      for i in range({a_} if s.MODE else {b_}):', '        s.o @= s.o + s.a',
+          '      s.q @= 0', f'      for j in range({c_} if s.mode else {d_}):', f"        s.q @= s.q + {rng.randint(1, 9)}",
+          '      s.r @= 0', f'      for k in range({max(c_, d_, 4)} if s.a[7] & s.mode else {min(c_, d_)}):', '        s.r[k] @= s.a[k]']
   elif fid in (F31, F32, F33, F34, F35):
     W = rng.choice([8, 12, 16])
     fixed_cycles = None
@@ -1104,12 +1206,13 @@ def gen_finding(rng, be, fid):
   else:
     raise ValueError(fid)
   if fid == F12:
-    return {'src': '\n'.join(L) + '\n', 'label': fid, 'finding': fid, 'variant': None, 'expect': FINDING_STREAMS[fid][1],
+    return {'src': '\n'.join(L) + '\n', 'label': fid + ':' + variant, 'finding': fid, 'variant': variant, 'expect': FINDING_STREAMS[fid][1],
             'features': ['finding-stream'], 'cycles': fixed_cycles}
   if fid in FIXED_STREAMS:
     return {'src': '\n'.join(L) + '\n', 'label': 'fixed:' + fid + (':' + variant if variant else ''), 'features': ['fixed-defect-shape']}
   d = {'src': '\n'.join(L) + '\n', 'label': fid + (':' + variant if variant else ''), 'finding': fid, 'variant': variant,
        'expect': FINDING_STREAMS[fid][1], 'features': ['finding-stream']}
+  if variant == 'const-array-field': d['expect'] = ('multi-driver', 'undriven'); d['scope'] = ('cfg',)
   if fid == F35: d['cycles'] = fixed_cycles
   return d
 
